@@ -288,6 +288,20 @@ Settle(S) ==
     ELSE Settle(DoLeaf(S))
 
 ---------------------------------------------------------------------------
+\* SimplePipeline::flush(): every sink below this pipeline is flushed, in list order, through nested pipelines of
+\* every class and depth (null entries skipped; a pipeline that is a child twice is walked twice).  This is the walk
+\* Logger::processMessage relies on after a fatal message (C11).
+RECURSIVE FlushFrom(_, _)
+FlushWalk(p) == FlushFrom(tbl[p].items, 1)
+FlushFrom(items, k) ==
+    IF k > Len(items) THEN <<>>
+    ELSE LET h == items[k]
+             here == IF h = 0 THEN <<>>
+                     ELSE IF tbl[h].kind = "sink" THEN <<h>>
+                     ELSE IF tbl[h].kind = "pipe" THEN FlushFrom(tbl[h].items, 1)
+                     ELSE <<>>
+         IN  here \o FlushFrom(items, k + 1)
+
 Init ==
     /\ tbl = <<>> /\ parent = <<>> /\ root = 0 /\ hst = <<>>
     /\ stack = <<>> /\ cur = NoMsg /\ out = <<>>
